@@ -261,6 +261,11 @@ class _Canon(ast.NodeTransformer):
                 setattr(node, fld, self._fold_loops(b))
         return node
 
+    def visit_FunctionDef(self, n):
+        n = self.generic_visit(n)
+        from .normalize import normalize_function
+        return normalize_function(n)
+
     def visit_IfExp(self, n):
         self.generic_visit(n)
         n.test = self._truth(n.test)
